@@ -72,6 +72,11 @@ def run(ctx):
         r = G.gen_relative_req(rng)
         r["op"] = "graph.select"
         reqs.append(r)
+    # targeted: `//...:name` alone and next to other patterns (the pattern *set* goes through ParsePatternsOrMatchAll)
+    for _ in range(300 if quick else 4000):
+        r = G.gen_rootname_req(rng)
+        r["op"] = "graph.select"
+        reqs.append(r)
     # boundary sizes: node counts around powers of two (sparse graphs)
     for size in (63, 64, 65, 127, 128, 129, 255, 256, 257):
         r = G.gen_select_req(rng, size)
@@ -220,7 +225,8 @@ def resolve(nodes, deps, i):
 
 
 def gen_cli_case(rng):
-    req = G.gen_relative_req(rng) if rng.random() < 0.3 else G.gen_select_req(rng, rng.randint(3, 10))
+    r = rng.random()
+    req = G.gen_relative_req(rng) if r < 0.25 else G.gen_rootname_req(rng) if r < 0.45 else G.gen_select_req(rng, rng.randint(3, 10))
     nodes = req["nodes"]
     for n in nodes:
         n["bin"] = False
